@@ -187,6 +187,14 @@ def _m_of_converted(st, i):
     """M(M.convert_solution(s_i)) with the real convert_solution; returns (value, None) or (None, Fail)."""
     s = _assignment(i, st.N, st.spin_d)
     x = st.M.convert_solution(s, spin=st.spin_d)
+    if any(v != 1 for v in s.values()):
+        # s is not all ones, so its domain is unambiguous and the `spin` hint is documented as ignored: without
+        # the hint (and with the wrong one) the whole of s - ancillas included - must decide how it is read
+        for flag in ((), (not st.spin_d,)):
+            x2 = st.M.convert_solution(s, *flag)
+            if x2 != x:
+                return None, Fail("convert_solution(%r%s) = %r but with the truthful hint %r (s is unambiguous)"
+                                  % (s, ", spin=%r" % flag[0] if flag else "", x2, x), key="convert-hint-dependent")
     if not isinstance(x, dict) or set(x) != set(st.vs):
         return None, Fail("convert_solution(%r) = %r is not an assignment of M's variables %r" % (s, x, st.vs),
                           key="convert-domain")
